@@ -10,7 +10,7 @@
    <lit>   ::= (L <kind> <num>)        kind: b i l f d e ; num: [-]hex digits (value for b i l e,
                                        bit pattern for f d)
    stdout: one line per case
-     <id> T=<ty|REJECT> FOLD=<LIT kind num|RESIDUAL|REJECT|CRASH> RT=<VAL kind num|FAULT div0|CRASH k>
+     <id> T=<ty|REJECT> FOLD=<LIT kind num|RESIDUAL|RESIDUAL-NOEMIT|REJECT|CRASH> RT=<VAL kind num|FAULT div0|CRASH k>
           CLEAN=<0|1> STRICT=<0|1> UB=<0|1>
      <id> ASSIGN=<VAL kind num|FAULT ..|CRASH k> UB=<0|1> FOLD=<as above, of the converted right side>
      <id> TEXT=<text>
@@ -211,9 +211,12 @@ let do_line (line : string) : unit =
     (match M.elab s with
      | None -> Printf.printf "%s T=REJECT\n" id
      | Some (e, t) ->
-       let f = match M.fold e with
+       (* canonicalisation: parentheses emit no instruction, so a residual (lit) dumps exactly
+          like the literal itself (expr_cond_constred leaves EXPR_SUP around the chosen branch) *)
+       let rec strip = function M.ESup a -> strip a | x -> x in
+       let f = match (match M.fold e with M.FOk e' -> M.FOk (match strip e' with M.ELit l -> M.ELit l | _ -> e') | r -> r) with
          | M.FOk (M.ELit l) -> "LIT " ^ string_of_lit l
-         | M.FOk _ -> "RESIDUAL"
+         | M.FOk e' -> if M.emit_ok e' then "RESIDUAL" else "RESIDUAL-NOEMIT"
          | M.FReject -> "REJECT"
          | M.FCrash -> "CRASH" in
        Printf.printf "%s T=%s FOLD=%s RT=%s CLEAN=%s STRICT=%s UB=%s\n" id (string_of_ty t) f
